@@ -405,7 +405,7 @@ pub fn run(tier: Tier) -> CheckResult {
     res.coverage.set("outputs_not_parsable_here", not_parsable);
     res.coverage.set("exhaustive", exhaustive);
     res.coverage.set("samples", json!(cases.iter().step_by((cases.len() / 5).max(1)).take(5).collect::<Vec<_>>()));
-    res.coverage.set("rule", "every graph of up to 3 nodes with an edge once more with each node in turn mapped to `string` by configuration (three contexts, parameter / return / event roots, both modes: the mapped type and what only it mentions must not be declared); every project carries unreachable serde types, one of them the type of a parameter called like an untyped local that a later function of the same file emits; type dependency graphs: every labelled digraph on 1..3 nodes incl. self-loops and cycles (thorough: plus 4 nodes with <= 5 edges); nodes with out-edges are structs, leaves rotate over struct / unit-variant enum / unit struct; root referenced from each of {parameter, Result ok-arm, Result err-arm, channel message, event payload as typed parameter, event payload as annotated let with a Default::default() initialiser}; six naming schemes for the nodes (N0.., names that start with a container's name such as Options / Vector3 / ResultSummary, names that embed analyser keywords, names in scripts without letter case and outside the BMP, names that are substrings of each other in both directions); every edge and the root reference realised through each of 12 constructor contexts (two of them spelled with a module path) (uniform) and with one edge deviating; 3 file layouts (one file, one file per node in nested directories, commands before types); unreachable nodes plus a non-serde struct and an unused serde struct as decoys; oracle: the exported type declarations of types.ts (minus *Params) equal the least fixpoint of reachability from the root (empty for the err-arm root), none twice; in Zod mode schemas and type aliases agree. Non-trivial = graph has at least one edge and the project was accepted.");
+    res.coverage.set("rule", "[round 7: a fourth file layout in which every type file is a symbolic link] every graph of up to 3 nodes with an edge once more with each node in turn mapped to `string` by configuration (three contexts, parameter / return / event roots, both modes: the mapped type and what only it mentions must not be declared); every project carries unreachable serde types, one of them the type of a parameter called like an untyped local that a later function of the same file emits; type dependency graphs: every labelled digraph on 1..3 nodes incl. self-loops and cycles (thorough: plus 4 nodes with <= 5 edges); nodes with out-edges are structs, leaves rotate over struct / unit-variant enum / unit struct; root referenced from each of {parameter, Result ok-arm, Result err-arm, channel message, event payload as typed parameter, event payload as annotated let with a Default::default() initialiser}; six naming schemes for the nodes (N0.., names that start with a container's name such as Options / Vector3 / ResultSummary, names that embed analyser keywords, names in scripts without letter case and outside the BMP, names that are substrings of each other in both directions); every edge and the root reference realised through each of 12 constructor contexts (two of them spelled with a module path) (uniform) and with one edge deviating; 3 file layouts (one file, one file per node in nested directories, commands before types); unreachable nodes plus a non-serde struct and an unused serde struct as decoys; oracle: the exported type declarations of types.ts (minus *Params) equal the least fixpoint of reachability from the root (empty for the err-arm root), none twice; in Zod mode schemas and type aliases agree. Non-trivial = graph has at least one edge and the project was accepted.");
     res.assumptions = vec!["Result arms are used as root contexts only (a Result-typed struct field is outside the documented feature set)".into()];
     res
 }
